@@ -194,8 +194,16 @@ theorem highbit_prefix_rejected (max : Nat) (hmax : max < 2147483648) (b0 b1 b2 
   simp only [be32, List.foldl_cons, List.foldl_nil]
   omega
 
+/-- hypotheses of `oversize_prefix_rejected` / `highbit_prefix_rejected`: a UTF-8 byte-order mark -/
+example : (1048576 : Nat) < be32 [0xef, 0xbb, 0xbf, 0x4c] ∧ 128 ≤ (0xef : UInt8).toNat ∧
+    (1048576 : Nat) < 2147483648 := by decide
+
 example : (readMessage 1048576 ⟨[0xef, 0xbb, 0xbf, 0x4c, 0x69], [1, 1, 1, 1], .eofSeparate⟩).res
     = .tooLarge 4022058828 := by decide
+
+/-- the 32-bit arithmetic on the last prefix of the range and on the sign boundary -/
+example : msgSize [0xff, 0xff, 0xff, 0xff] = 4294967295 ∧ msgSize [0x80, 0, 0, 0] = 2147483648 ∧
+    msgSize [0x7f, 0xff, 0xff, 0xff] = 2147483647 := by decide
 
 /-- **The limits in the source are the documented ones.**  The runner calls
 `ReadDelimitedMessage` in exactly two places; the limit it passes where it reads the server's
